@@ -54,7 +54,13 @@ def judge(rec):
             # that defect, not a lost point.
             reproj = bool(prob.get('proj')) and prob.get('reg') is not None and int(s.xmin_eval_num) == ibest + 1 and \
                 abs(obj - float(f[ibest])) <= 1e-6 * (1.0 + abs(float(f[ibest]))) and len(worse) == 1
-            V.append(dict(signature=('C04:returned_best_point_obj_differs:regulariser_projections' if reproj else 'C04:better_point_lost:%s' % route),
+            # the same defect can also hide a marginally better point: the model ranks points by objective values that use h
+            # before the re-projection, which differ from the evaluated ones by up to ~1e-5 relative (observed 2.6e-6 with
+            # dykstra.max_iters=10), so a point better by less than that may not be recognised
+            lost_by_reproj = bool(prob.get('proj')) and prob.get('reg') is not None and not reproj and \
+                abs(obj - float(f[ibest])) <= 1e-5 * (1.0 + abs(float(f[ibest])))
+            V.append(dict(signature=('C04:returned_best_point_obj_differs:regulariser_projections' if reproj else
+                                     'C04:better_point_lost:regulariser_projections' if lost_by_reproj else 'C04:better_point_lost:%s' % route),
                           what='soln.obj = %r exceeds the objective at %d recorded evaluation(s); best recorded value %r at evaluation %d of %d (%s); '
                                'exit: %s, nruns %s, soln.xmin_eval_num %s' % (obj, len(worse), float(f[ibest]), ibest + 1, len(calls), where, route, s.nruns, s.xmin_eval_num),
                           detail=dict(obj=S.fh(obj), best=S.fh(float(f[ibest])), best_eval=ibest + 1, ncalls=len(calls), where=where, route=route,
